@@ -15,7 +15,7 @@ DocumentedPanics == { <<"CustomExtension::new_acme_identifier", "digest-length-n
 GenFns == {"self_signed", "signed_by", "serialize_request", "crl_signed_by"}
 (* object identifiers: every position that takes caller-chosen arcs x every shape around the limits of the DER encoding
    (first arc 0..2, second arc < 40 under 0 and 1, 40 * 2 + second arc must fit 64 bits under 2) *)
-OidPositions == {"custom", "eku", "dntype", "othername"}
+OidPositions == {"custom", "eku", "dntype", "othername", "ncdirperm", "ncdirexcl"}   \* the last two: an attribute type inside a directoryName subtree
 OidShapes == {"oid-empty", "one-arc", "first-arc-3", "second-arc-40", "second-arc-39", "huge-arc", "arc2-limit", "arc2-below-limit", "arc2-half", "later-arc-max", "1k-arcs"}
 OidClassName(p, sh) == CASE sh = "oid-empty" -> p \o "-oid-empty" [] OTHER -> p \o "-oid-" \o sh
 OidClasses == { OidClassName(p, sh) : p \in OidPositions, sh \in OidShapes }
